@@ -96,6 +96,14 @@ def check_region(section, mem, res, version=8, tag=''):
                 res.violation('C16|%s|from_lines|%s-differs' % (section, how),
                               '%s.from_lines gives other bytes when the same rows arrive as %s instead of a list' % (section, how), case)
                 return
+        # the last row without its newline (a file whose final newline is missing; rows are fixed-width text)
+        cut = list(ref_lines[:-1]) + [ref_lines[-1][:-1]]
+        alt = bytes(cls.from_lines(cut, version=version).to_bytes())
+        if alt != back:
+            off = next((i for i in range(min(len(alt), len(back))) if alt[i] != back[i]), min(len(alt), len(back)))
+            res.violation('C16|%s|from_lines|unterminated-last-row' % section,
+                          '%s.from_lines reads other bytes (first at offset %#x) when the last row lacks its newline' % (section, off), case)
+            return
     except Exception as e:
         res.violation('C16|%s|from_lines|raise|%s' % (section, type(e).__name__),
                       '%s.from_lines raised %r' % (section, e), case)
@@ -374,6 +382,9 @@ def check_files(tier, seed, order, res):
         # blank lines at section ends: where PICO-8 / picotool's writer put them, after every section, or nowhere
         blank = [('gfx', 'label', 'music'), tuple(P8_SECTION_ORDER), ()][(i // 2 + order) % 3]
         data, want, lab = sparse_file(present, keep, seed, i % 7 + 1, label, [8, 0, 16, 29, 1, 41, 255][i % 7], blank_after=blank)
+        if i % 3 == 2:
+            # the file as an editor / a script leaves it: no newline (and no blank line) at its very end
+            data = data.rstrip(b'\n')
         pth = os.path.join(d, 'f%03d.p8' % i)
         open(pth, 'wb').write(data)
         paths.append((pth, tag, want, lab, [8, 0, 16, 29, 1, 41, 255][i % 7]))
